@@ -4,7 +4,7 @@
    every run (Gen/C24Window.v); the composition (Model/C24Query.v) is tied to the implementation by the correspondence run.
    R = q_list q is list(q).  All bounds are arbitrary non-negative integers, all row lists / predicates / sort keys arbitrary. *)
 Require Import PonyV.Base.PyBase PonyV.Base.Seg PonyV.Gen.C24Window PonyV.Model.C24Query
-               PonyV.Proofs.C24Window PonyV.Proofs.C24Query PonyV.Model.C24Params PonyV.Proofs.C24Params.
+               PonyV.Proofs.C24Window PonyV.Proofs.C24Query PonyV.Model.C24Params PonyV.Proofs.C24Params PonyV.Model.C24More PonyV.Proofs.C24More.
 From Coq Require Import Permutation.
 
 (* limits of nested queries combine arithmetically into one LIMIT/OFFSET that selects the window of the window *)
@@ -191,3 +191,64 @@ Print Assumptions C24_chained_lambda_steps.
 Example C24_chained_nonvacuous :      (* one code object (0), captured values 1 then 3: rows > 1 and > 3 *)
   pq_list (apply_steps [(0%nat, fun v x => v <? x, 1); (0%nat, fun v x => v <? x, 3)] (pq_base [5; 2; 4; 1])) = [5; 4].
 Proof. vm_compute. reflexivity. Qed.
+
+(* ---- random(), first() under DISTINCT, count() variants, Oracle, and the merge rule of limited subqueries ---- *)
+
+(* random(n) = the first n rows of a permutation of R: a sub-multiset of R of size min(n, |R|) (when the order_by it adds leaves
+   the DISTINCT decision alone: see the finding on automatic DISTINCT) *)
+Theorem C24_random_except_known : forall (A : Type) (eqb : A -> A -> bool) (rk : A -> Z) (n : Z) (q : query (A:=A)),
+  q_window q = no_window -> 0 <= n -> eff_distinct (add_order [rk] q) = eff_distinct q ->
+  exists R', Permutation R' (q_list eqb q) /\ q_random eqb rk n q = firstn (Z.to_nat n) R' /\
+             length (q_random eqb rk n q) = Nat.min (Z.to_nat n) (length (q_list eqb q)).
+Proof. exact @random_sample. Qed.
+Print Assumptions C24_random_except_known.
+
+(* first() of an ordered query is R[0] also after an explicit distinct(), when the ORDER BY keys identify the row *)
+Theorem C24_first_distinct : forall (A : Type) (eqb : A -> A -> bool), (forall x y, eqb x y = true <-> x = y) ->
+  forall dflt (q : query (A:=A)), q_window q = no_window -> has_order q = true -> antisym (q_order q) ->
+  q_first eqb dflt q = hd_error (q_list eqb q).
+Proof. exact @first_list_distinct. Qed.
+Print Assumptions C24_first_distinct.
+
+(* count() and count(distinct=False) of a tuple query = len(list(q)) whatever DISTINCT the query runs with *)
+Theorem C24_count_pair_variants : forall arg (q : query (A:=Z * Z)), q_window q = no_window -> arg <> Some true ->
+  q_count_pair arg q = Ok (zlen (q_list zz_eqb q)).
+Proof. exact count_pair_list_gen. Qed.
+Print Assumptions C24_count_pair_variants.
+
+(* Oracle: the nested ROWNUM selects OraBuilder.SELECT writes mean the window -- except for LIMIT 0 (Findings/C24.v) *)
+Theorem C24_oracle_rownum_except_known : forall (A : Type) (w : window) (R : list A),
+  window_ok w = true -> fst w <> Some 0 -> ora_sem (ora_select (ora_section w)) R = win w R.
+Proof. exact @ora_limit_sem. Qed.
+Print Assumptions C24_oracle_rownum_except_known.
+
+(* The merge rule.  process_query_qual does not nest a limited subquery: it extends the inner query, so an outer condition joins
+   the inner WHERE and the combined window is applied afterwards (C24_merged_filter: what the code does).  That IS the nested list
+   semantics exactly when the combined window keeps every row or none (C24_merged_filter_ok / _order_ok), and for EVERY other
+   window there are rows and a condition on which it is not (C24_merged_filter_differs): the limited-subquery findings are this
+   complement, not a list of observed cases. *)
+Theorem C24_merged_filter : forall (A : Type) (eqb : A -> A -> bool), (forall x y, eqb x y = true <-> x = y) ->
+  forall p (q : query (A:=A)) w, window_ok (q_window q) = true -> window_ok w = true ->
+  q_list eqb (add_filter p (nest q w)) = win (combine (q_window q) w) (filter p (full eqb (nest q w))).
+Proof. exact @merged_filter. Qed.
+Print Assumptions C24_merged_filter.
+
+Theorem C24_merged_filter_ok : forall (A : Type) (eqb : A -> A -> bool), (forall x y, eqb x y = true <-> x = y) ->
+  forall p (q : query (A:=A)) w, window_ok (q_window q) = true -> window_ok w = true ->
+  transparent (combine (q_window q) w) || empty_window (combine (q_window q) w) = true ->
+  q_list eqb (add_filter p (nest q w)) = filter p (q_list eqb (nest q w)).
+Proof. exact @merged_filter_ok. Qed.
+Print Assumptions C24_merged_filter_ok.
+
+Theorem C24_merged_order_ok : forall (A : Type) (eqb : A -> A -> bool) ks (q : query (A:=A)) w,
+  window_ok (q_window q) = true -> window_ok w = true ->
+  transparent (combine (q_window q) w) || empty_window (combine (q_window q) w) = true ->
+  eff_distinct (add_order ks (nest q w)) = eff_distinct (nest q w) ->
+  Permutation (q_list eqb (add_order ks (nest q w))) (q_list eqb (nest q w)).
+Proof. exact @merged_order_ok. Qed.
+Print Assumptions C24_merged_order_ok.
+
+Theorem C24_merged_filter_differs : forall w : window, window_ok w = true -> transparent w = false -> empty_window w = false ->
+  exists rows p, q_list Z.eqb (add_filter p (nest (plainq rows) w)) <> filter p (q_list Z.eqb (nest (plainq rows) w)).
+Proof. exact merged_filter_differs. Qed.
+Print Assumptions C24_merged_filter_differs.
